@@ -129,6 +129,42 @@ thread_local! { static INTRUDE: std::cell::Cell<bool> = const { std::cell::Cell:
 // render starts)
 thread_local! { static ABANDON_FIRST: RefCell<Option<Vec<String>>> = const { RefCell::new(None) }; }
 
+// modes `blockp` / `streamp`: a render of an unrelated view in the OTHER asynchronous mode is started BEFORE the render under
+// test, stays suspended on one boundary, and finishes at one of the points between the events of the render under test
+// (a response that is still streaming out when the next request is rendered on the thread, or the reverse)
+thread_local! { static PENDING_OTHER: std::cell::Cell<Option<usize>> = const { std::cell::Cell::new(None) }; }
+
+struct Other { s: Option<Senders>, at: usize, h: tokio::task::JoinHandle<()> }
+impl Other {
+    /// `own`: the mode of the render under test
+    async fn start(own: &str) -> Option<Other> {
+        // (only the render under test gets company: the reference renders of the oracles are carried out alone)
+        let at = PENDING_OTHER.with(|p| p.take())?;
+        let before = NODE_COUNTS.with(|c| c.borrow().len());
+        let vs0 = parse("(L (el 0 (susp (acomp 0 (el 1 (text 0))))))").unwrap();
+        let (f0, s0) = view_fn(&vs0);
+        let h = if own == "block" {
+            let mut st0 = Box::pin(sycamore::web::render_to_string_stream(f0));
+            tokio::task::spawn_local(async move { while let Some(_) = StreamExt::next(&mut st0).await {} })
+        } else {
+            tokio::task::spawn_local(async move { let _ = sycamore::web::render_to_string_await_suspense(f0).await; })
+        };
+        drain().await;
+        // the node count that is compared is the one at the start of the render under test
+        NODE_COUNTS.with(|c| c.borrow_mut().truncate(before));
+        Some(Other { s: Some(s0), at, h })
+    }
+    /// the k-th point between the events of the render under test
+    async fn tick(&mut self, k: usize) {
+        if k == self.at { self.finish().await; }
+    }
+    async fn finish(&mut self) {
+        if let Some(mut s0) = self.s.take() { s0.fire("c0"); drain().await; }
+    }
+}
+async fn other_tick(o: &mut Option<Other>, k: usize) { if let Some(o) = o { o.tick(k).await; } }
+async fn other_end(o: &mut Option<Other>) { if let Some(o) = o { o.finish().await; drain().await; o.h.abort(); } }
+
 /// modes `blockx` / `streamx`: between the events of the render under test, complete renders of an unrelated,
 /// task-free view are carried out on the same thread in the OTHER modes (renders are isolated from each other)
 async fn intrude(own: &str) {
@@ -214,6 +250,7 @@ fn render_block_opt(vs: &[AV], events: &[String], abandon: bool) -> Result<(Opti
         let rt = tokio::runtime::Builder::new_current_thread().build().unwrap();
         let local = tokio::task::LocalSet::new();
         local.block_on(&rt, async move {
+            let mut other = Other::start("block").await;
             let (f, mut s) = view_fn(&vs);
             let done: Rc<RefCell<Option<String>>> = Default::default();
             let d2 = done.clone();
@@ -223,16 +260,19 @@ fn render_block_opt(vs: &[AV], events: &[String], abandon: bool) -> Result<(Opti
             });
             drain().await;
             intrude("block").await;
+            other_tick(&mut other, 0).await;
             drain().await;
             let mut at = if done.borrow().is_some() { Some(0) } else { None };
             for (k, e) in events.iter().enumerate() {
                 s.fire(e);
                 drain().await;
                 intrude("block").await;
+                other_tick(&mut other, k + 1).await;
                 drain().await;
                 if at.is_none() && done.borrow().is_some() { at = Some(k + 1); }
             }
             let html = done.borrow_mut().take();
+            other_end(&mut other).await;
             if abandon {
                 h.abort();
                 drain().await;
@@ -268,6 +308,7 @@ fn render_stream(vs: &[AV], events: &[String]) -> Result<(String, Vec<Vec<String
                 keep_alive = Some(s0);
                 NODE_COUNTS.with(|c| c.borrow_mut().clear());
             }
+            let mut other = Other::start("stream").await;
             let (f, mut s) = view_fn(&vs);
             let stream = sycamore::web::render_to_string_stream(f);
             let mut stream = Box::pin(stream);
@@ -286,6 +327,7 @@ fn render_stream(vs: &[AV], events: &[String]) -> Result<(String, Vec<Vec<String
             drain().await;
             let mut first = take(&mut stream, &mut ended, 0);
             intrude("stream").await;
+            other_tick(&mut other, 0).await;
             drain().await;
             first.extend(take(&mut stream, &mut ended, 0));
             let shell = if first.is_empty() { String::new() } else { first.remove(0) };
@@ -295,6 +337,7 @@ fn render_stream(vs: &[AV], events: &[String]) -> Result<(String, Vec<Vec<String
                 drain().await;
                 let mut got = take(&mut stream, &mut ended, k + 1);
                 intrude("stream").await;
+                other_tick(&mut other, k + 1).await;
                 drain().await;
                 got.extend(take(&mut stream, &mut ended, k + 1));
                 per.push(got);
@@ -304,6 +347,7 @@ fn render_stream(vs: &[AV], events: &[String]) -> Result<(String, Vec<Vec<String
             for e in rest { s.fire(&e); drain().await; let _ = take(&mut stream, &mut None, 0); }
             drain().await;
             let _ = take(&mut stream, &mut None, 0);
+            other_end(&mut other).await;
             drop(keep_alive);
             drain().await;
             (shell, per, ended)
@@ -417,6 +461,16 @@ fn show_chunks(per: &[Vec<String>]) -> String {
 }
 
 fn exec(line: &str) -> (String, Option<String>, bool) {
+    // `blockp` cases run on a thread of their own: whether the thread is in hydration mode when the first of the two
+    // renders starts is part of the scenario (a thread that has carried out a streaming render stays in that mode),
+    // and a fresh thread starts outside it
+    if line.starts_with("assr blockp ") && std::thread::current().name() != Some("assr-fresh") {
+        let l = line.to_string();
+        return match std::thread::Builder::new().name("assr-fresh".into()).spawn(move || exec(&l)).unwrap().join() {
+            Ok(r) => r,
+            Err(_) => ("panic".into(), Some("[ssr-panic] the renders of the case panicked on their thread".into()), true),
+        };
+    }
     let rest = line.strip_prefix("assr ").unwrap();
     let (mode, rest) = rest.split_once(' ').unwrap();
     let (sexp, evs) = rest.rsplit_once(' ').unwrap();
@@ -425,6 +479,7 @@ fn exec(line: &str) -> (String, Option<String>, bool) {
     let mut verdict: Option<String> = None;
     NODE_COUNTS.with(|c| c.borrow_mut().clear());
     let (mode, intr) = match mode { "blockx" => ("block", true), "streamx" => ("stream", true), m => (m, false) };
+    let (mode, pend) = match mode { "blockp" => ("block", true), "streamp" => ("stream", true), m => (m, false) };
     let (mode, events) = if mode == "streamdrop1" {
         let (mut tasks, mut ress) = (vec![], vec![]);
         collect(&vs, &mut tasks, &mut ress);
@@ -432,8 +487,20 @@ fn exec(line: &str) -> (String, Option<String>, bool) {
         ("stream", tasks.iter().map(|t| format!("c{t}")).chain(ress.iter().map(|r| format!("r{r}"))).collect::<Vec<String>>())
     } else { (mode, events) };
     INTRUDE.with(|i| i.set(intr));
+    if pend { PENDING_OTHER.with(|p| p.set(Some(line.bytes().map(|b| b as usize).sum::<usize>() % (events.len() + 1)))); }
     let obs = exec_mode(mode, &vs, &events, &mut verdict);
     INTRUDE.with(|i| i.set(false));
+    PENDING_OTHER.with(|p| p.set(None));
+    if pend && verdict.is_none() {
+        let mut v2 = None;
+        let alone = exec_mode(mode, &vs, &events, &mut v2);
+        if alone != obs {
+            let at = obs.char_indices().zip(alone.chars()).find(|((_, a), b)| a != b).map(|((i, _), _)| i).unwrap_or(obs.len().min(alone.len()));
+            let class = if mode == "block" { "ssr-isolation" } else { "ssr-overlap-block-first" };
+            verdict = Some(format!("[{class}] a {mode} render gives a different result when a render of an unrelated view in the other asynchronous mode, started before it and suspended, finishes between its events: first difference at byte {at} of the observation (`…{}` with it, `…{}` alone)",
+                obs.chars().skip(at.saturating_sub(12)).take(40).collect::<String>(), alone.chars().skip(at.saturating_sub(12)).take(40).collect::<String>()));
+        }
+    }
     if intr && verdict.is_none() {
         // isolation, stated directly: the same render with the same completion order, carried out alone
         let mut v2 = None;
@@ -647,6 +714,8 @@ pub fn generate(args: &Args) -> Vec<String> {
             l.push(format!("assr stream {f} {e}"));
             l.push(format!("assr blockx {f} {e}"));
             l.push(format!("assr streamx {f} {e}"));
+            l.push(format!("assr blockp {f} {e}"));
+            l.push(format!("assr streamp {f} {e}"));
             // an incomplete schedule: the last completion never happens
             if p.len() > 1 { let q = p[..p.len() - 1].join(","); l.push(format!("assr block {f} {q}")); l.push(format!("assr stream {f} {q}")); l.push(format!("assr blockdrop {f} {q}")); }
             if p.len() == 1 { l.push(format!("assr blockdrop {f} -")); }
@@ -672,6 +741,7 @@ pub fn generate(args: &Args) -> Vec<String> {
         l.push(format!("assr block {s} {e}"));
         l.push(format!("assr stream {s} {e}"));
         if rng.chance(1, 3) { l.push(format!("assr {} {s} {e}", if rng.chance(1, 2) { "blockx" } else { "streamx" })); }
+        if rng.chance(1, 3) { l.push(format!("assr {} {s} {e}", if rng.chance(1, 2) { "blockp" } else { "streamp" })); }
         if !evs.is_empty() && rng.chance(1, 3) {
             let cut = rng.below(evs.len());
             l.push(format!("assr streamdrop1 {s} {}", if cut == 0 { "-".to_string() } else { evs[..cut].join(",") }));
